@@ -276,3 +276,13 @@ mod tests {
         assert_eq!(r, vec![7, 33]);
     }
 }
+
+#[cfg(test)]
+mod port_vector {
+    #[test]
+    fn print_vector() {
+        let mut r = super::Rng::derive(20261002, "own-cpp", 7);
+        let v: Vec<u32> = (0..3).map(|_| r.next_u32()).collect();
+        println!("VECTOR {:?}", v);
+    }
+}
